@@ -207,9 +207,15 @@ class WritableVersion(dns.zone.WritableVersion):
 
     def __init__(self, zone: dns.zone.Zone, replacement: bool = False):
         super().__init__(zone, True)
+        version = None
         if not replacement:
             assert isinstance(zone, dns.versioned.Zone)
             version = zone._versions[-1]
+            if not isinstance(version, ImmutableVersion):
+                # This is the empty initial version made by dns.versioned.Zone's
+                # constructor; there is nothing to clone.
+                version = None
+        if version is not None:
             self.nodes: dns.btree.BTreeDict[dns.name.Name, Node] = dns.btree.BTreeDict[
                 dns.name.Name, Node
             ](
